@@ -810,6 +810,36 @@ def catalogue_cases(quick=False):
     return out
 
 
+SLICE_SRCS = [
+    'x = {a: b, c: [d, e], **f, g: h}', 'match s:\n    case {"k": [v, w], "l": m, **r}:\n        pass\n',
+    'x = a < [b, c] <= d != e', 'f(a, [b, c], k=v, *d, **e)', 'class C(B1, [B2, B3][0], k=v):\n    pass\n',
+    'def f(a, b=[p, q], *c, d=1, **e):\n    pass\n', 'match s:\n    case C(p, [q, r], k=v):\n        pass\n',
+    'if t:\n    a\n    [b, c]\n    d\nelse:\n    e\n', 'x = [a, [b, c], d, e]', 'with a as b, c as [d, e], f:\n    pass\n',
+    'del a, [b, c][0], d', 'x = y = [p, q] = z', 'import a, b, c', 'x = a and [b, c] and d and e',
+    'try:\n    a\nexcept E:\n    [b, c]\nexcept F:\n    d\n', 'x = {a, (b, c), d}',
+]
+
+
+def slice_cases(quick=False):
+    """slice deletions / replacements through every virtual or paired field and plain list fields during a walk: the run
+    (1 or 2 elements or key:value pairs) starting at the node just yielded, at a following or a preceding sibling, or
+    at the parent; every `on`, both directions, every yield"""
+    out = []
+    acts = [[['delslice', 'cur', 1]], [['delslice', 'next', 1]], [['delslice', 'prev', 1]], [['delslice', 'cur', 2]],
+            [['delslice', 'parent', 1]], [['putslice', 'cur', 1]], [['delslice', 'pnext', 1]], [['delslice', 'pprev', 1]]]
+    for src in SLICE_SRCS:
+        n = sum(1 for a in ast.walk(ast.parse(src)) if R.vis_of(a, 'F'))
+        for on in ONS:
+            for back in (False, True):
+                if quick and back and on == 'both':
+                    continue
+                for k in range(min(n, 9 if quick else 14) * (2 if on == 'both' else 1)):
+                    for a in (acts[:5] if quick else acts):
+                        out.append(dict(on=on, back=back, recurse=True, self_=True, src=src, wroot=[], script=[[k, a]],
+                                        all='F', mode='exec'))
+    return out
+
+
 COLLAPSE_SRCS = ['x = a and b', 'x = [a and b, c or d or e]', 'if a and b:\n    pass\n', 'y = f(a or b, (c and d))']
 
 
@@ -836,7 +866,7 @@ def sweep(ctx):
         ctx.count([c['src'], c['back'], c['script'], 'scope'], r.get('n_mut', 0) > 0)
         report_viol(ctx, c, r, 'scope walk')
     # corpus programs: oracle + correspondence through observed trees
-    cases = collapse_cases() + catalogue_cases(q) + prog_cases(ctx, 60 if q else 500, 5 if q else 14, 4 if q else 40)
+    cases = collapse_cases() + slice_cases(q) + catalogue_cases(q) + prog_cases(ctx, 60 if q else 500, 5 if q else 14, 4 if q else 40)
     run_compare(ctx, 'walk(corpus programs, observed mutations) vs Pfst.WalkMut machines', cases, False, 'corpus program',
                 'prog_')
     # search / sub
